@@ -1009,6 +1009,16 @@ func (fr *frame) indexVal(x *ssa.Index) {
 		fr.set(x, base.index(i))
 		return
 	}
+	if isString(x.X.Type()) {
+		// x/tools >= v0.50 emits ssa.Index (not ssa.Lookup) for s[i] on strings
+		fr.oblige("idx", text, x.Pos(), idxInRange(i, base.strLen()))
+		bt := mkSelect(base.strArr(), app(SIdx, "bvadd", base.strOff(), i))
+		if gInt {
+			bt = fr.ft.rangedDef("sb", bt, func(x Term) Term { return inTypeRange(x, 8, false) })
+		}
+		fr.set(x, &Val{T: x.Type(), L: []Term{bt}})
+		return
+	}
 	fr.vals[x] = fr.ft.freshVal(x.Name(), x.Type())
 }
 
